@@ -1,9 +1,114 @@
 import Driver.Proto
+import PolyVerif.Model.Delaunay
 
 namespace Driver.C20
+open PolyVerif PolyVerif.Delaunay
 
-/-- one request -> one answer line; `none` = unknown op / malformed -/
-def handle (_op : String) (_args : List String) : Option String := none
+/-- a float64 decoded exactly: value = `m · 2^e` (`m = 0` ⇒ `e = 0`) -/
+structure Dy where
+  m : Int
+  e : Int
+
+/-- strip trailing zero bits of the mantissa (at most 64 rounds) -/
+def normDy : Nat → Nat → Int → (Nat × Int)
+  | 0, m, e => (m, e)
+  | fuel + 1, m, e => if m != 0 && m % 2 == 0 then normDy fuel (m / 2) (e + 1) else (m, e)
+
+/-- exact decoding of an IEEE-754 binary64 bit pattern; NaN / ±Inf are rejected -/
+def decode (bits : Nat) : Option Dy :=
+  let sign := bits >>> 63
+  let ex := (bits >>> 52) % 2048
+  let frac := bits % (2 ^ 52)
+  if ex == 2047 then none
+  else
+    let (m, e) : Nat × Int := if ex == 0 then (frac, -1074) else (frac + 2 ^ 52, (ex : Int) - 1075)
+    if m == 0 then some ⟨0, 0⟩ else
+    let (m, e) := normDy 64 m e
+    some ⟨if sign == 1 then -(m : Int) else (m : Int), e⟩
+
+def dyOfHex (s : String) : Option Dy :=
+  if s.length ≠ 16 then none else (parseHex s) >>= decode
+
+/-- all values of one case on the common scale `2^eMin`: integer `m · 2^(e - eMin)` -/
+def scaleInts (ds : List Dy) : List Int :=
+  let es := (ds.filter (fun d => d.m != 0)).map (·.e)
+  match es with
+  | [] => ds.map (fun _ => 0)
+  | e0 :: rest =>
+    let eMin := rest.foldl (fun a b => if b < a then b else a) e0
+    ds.map (fun d => if d.m == 0 then 0 else d.m * (2 : Int) ^ (d.e - eMin).toNat)
+
+def dyToRat (d : Dy) : Rat :=
+  if d.e ≥ 0 then (d.m * (2 : Int) ^ d.e.toNat : Int) else (d.m : Rat) / ((2 : Int) ^ (-d.e).toNat : Int)
+
+def pairUp {β : Type} : List β → List (β × β)
+  | a :: b :: rest => (a, b) :: pairUp rest
+  | _ => []
+
+def tripleUp {β : Type} : List β → List (β × β × β)
+  | a :: b :: c :: rest => (a, b, c) :: tripleUp rest
+  | _ => []
+
+def showTris (ts : List Tri) : String :=
+  " ".intercalate (toString ts.length :: ts.map (fun t => s!"{t.1} {t.2.1} {t.2.2}"))
+
+/-- args after the class token: `n  x0 y0 … x(n-1) y(n-1)  rest…` -/
+def takePoints (args : List String) : Option (Nat × List String × List String) := do
+  let n ← nat? (← args.head?)
+  let rest := args.drop 1
+  if rest.length < 2 * n then none
+  pure (n, rest.take (2 * n), rest.drop (2 * n))
+
+def takeTris (args : List String) : Option (List Tri) := do
+  let m ← nat? (← args.head?)
+  let idx ← (args.drop 1).mapM nat?
+  if idx.length ≠ 3 * m then none
+  pure (tripleUp idx)
+
+/-- exact integer point lookup for the oracle checkers -/
+def intPoints (hex : List String) : Option (Nat → Pt Int) := do
+  let ds ← hex.mapM dyOfHex
+  let arr := (pairUp (scaleInts ds)).toArray
+  pure (fun i => arr.getD i (0, 0))
+
+def handle (op : String) (args0 : List String) : Option String := do
+  let args := args0.drop 1       -- first token: generator class (only for known-finding matching)
+  match op with
+  | "c20.bw" => do
+      let (_, hex, _) ← takePoints args
+      let ds ← hex.mapM dyOfHex
+      let pts : List (Pt Rat) := pairUp (ds.map dyToRat)
+      match bowyerWatson id pts with
+      | none => pure "panic"
+      | some ts => pure (showTris (canonTris ts))
+  | "c20.holds.vertices" => do     -- n pts k out(3k)
+      let (_, hex, rest) ← takePoints args
+      let k ← nat? (← rest.head?)
+      let out := rest.drop 1
+      if out.length ≠ 3 * k then none
+      let pb ← hex.mapM parseHex
+      let ob ← out.mapM parseHex
+      pure (boolStr (verticesOk (pairUp pb) (tripleUp ob)))
+  | "c20.holds.indices" => do      -- n m idx
+      let n ← nat? (← args.head?)
+      let ts ← takeTris (args.drop 1)
+      pure (boolStr (indicesOk n ts))
+  | "c20.holds.winding" => do      -- n pts m idx
+      let (_, hex, rest) ← takePoints args
+      let P ← intPoints hex
+      let ts ← takeTris rest
+      pure (boolStr (windingOk P ts))
+  | "c20.holds.delaunay" => do
+      let (n, hex, rest) ← takePoints args
+      let P ← intPoints hex
+      let ts ← takeTris rest
+      pure (boolStr (delaunayOk P n ts))
+  | "c20.holds.no_overlap" => do
+      let (_, hex, rest) ← takePoints args
+      let P ← intPoints hex
+      let ts ← takeTris rest
+      pure (boolStr (noOverlapOk P ts))
+  | _ => none
 
 end Driver.C20
 
